@@ -476,6 +476,7 @@ Section AstInd.
   Hypothesis HPrint : forall l p m pf sf r, P (APrint l p m pf sf r).
   Hypothesis HTernary : forall c p1 p2, P (ATernary c p1 p2).
   Hypothesis HIf : forall c th el he, Forall P th -> Forall P el -> P (AIf c th el he).
+  Hypothesis HIfOK : forall v okv arg al ng th el he, Forall P th -> Forall P el -> P (AIfOK v okv arg al ng th el he).
   Hypothesis HSwitch : forall arg cases dflt hd, Forall P cases -> Forall P dflt -> P (ASwitch arg cases dflt hd).
   Hypothesis HCase : forall c body, Forall P body -> P (ACase c body).
   Hypothesis HCLoop : forall var init lim il ll cop step sep body els he,
@@ -499,6 +500,7 @@ Section AstInd.
     | APrint l p m pf sf r => HPrint l p m pf sf r
     | ATernary c p1 p2 => HTernary c p1 p2
     | AIf c th el he => HIf c th el he (go th) (go el)
+    | AIfOK v okv arg al ng th el he => HIfOK v okv arg al ng th el he (go th) (go el)
     | ASwitch arg cases dflt hd => HSwitch arg cases dflt hd (go cases) (go dflt)
     | ACase c body => HCase c body (go body)
     | ACLoop var init lim il ll cop step sep body els he => HCLoop var init lim il ll cop step sep body els he (go body) (go els)
